@@ -792,10 +792,11 @@ func judgeResponse(c ExchangeCase, plans []plan, keys []proc.WalletKey, body []b
 			}
 			return "result " + jsonrpc.Render(r.Result)
 		}
+		needMessage := true
 		wantErr := func(why string) {
 			if !r.IsError {
 				vs = append(vs, evid.V("error-expected", "position %d: %s, but the response carries %s", i, why, describe()))
-			} else if r.Message == "" {
+			} else if r.Message == "" && needMessage {
 				vs = append(vs, evid.V("error-message", "position %d: %s; the error object has an empty message (code %s)", i, why, r.Code))
 			}
 		}
@@ -840,6 +841,10 @@ func judgeResponse(c ExchangeCase, plans []plan, keys []proc.WalletKey, body []b
 			case p.class == fromUnknown:
 				wantErr("eth_sendTransaction from an address that is not in the wallet")
 			default:
+				// a backend error object whose own message is empty may be relayed as it is
+				if nr := c.nonceReply(p.from); nr.Kind == "rpcerror" && nr.Message == "" {
+					needMessage = false
+				}
 				wantErr("the nonce lookup for eth_sendTransaction failed")
 			}
 			continue
@@ -1178,122 +1183,204 @@ func genTx(rt *rapid.T, label string, keys []proc.WalletKey, maxData int) (*Tx, 
 	return tx, cl
 }
 
-func genExchange(rt *rapid.T, keys []proc.WalletKey, thorough bool) (ExchangeCase, []string) {
+// genMember draws one request with its backend reply.  Nothing in it depends on the
+// member's position, so that rapid can shrink a failing batch by deleting members.
+func genMember(rt *rapid.T, keys []proc.WalletKey, maxData int, fifo bool) Member {
+	label := "m"
+	m := Member{}
+	if !fifo {
+		m.Rank = rapid.IntRange(0, 63).Draw(rt, label+".rank")
+	}
+	id, _ := genID(rt, label+".id", rapid.IntRange(0, 99).Draw(rt, label+".idsuffix"))
+	m.ID = json.RawMessage(id)
+	switch k := rapid.IntRange(0, 9).Draw(rt, label+".kind"); {
+	case k < 4:
+		m.Kind = "pass"
+		m.Method = rapid.SampledFrom(methodMenu).Draw(rt, label+".method")
+		if rapid.IntRange(0, 4).Draw(rt, label+".ownmethod") == 0 {
+			m.Method = genString(rt, label+".methodname")
+		}
+		switch m.Method {
+		case "", "eth_sendTransaction", "eth_accounts", "personal_accounts": // handled by the proxy itself / not a method name
+			m.Method += "m"
+		}
+		switch rapid.IntRange(0, 7).Draw(rt, label+".pform") {
+		case 0:
+			m.ParamsForm = "absent"
+		case 1:
+			m.ParamsForm = "empty"
+		default:
+			np := rapid.IntRange(0, 4).Draw(rt, label+".np")
+			for p := 0; p < np; p++ {
+				m.Params = append(m.Params, json.RawMessage(genJSON(rt, fmt.Sprintf("%s.p%d", label, p), 3)))
+			}
+			m.TokenPos = rapid.IntRange(0, np).Draw(rt, label+".tokpos")
+			m.TokenDeep = rapid.IntRange(0, 3).Draw(rt, label+".tokdeep") == 0
+		}
+	case k < 9:
+		m.Kind = "sendtx"
+		m.Tx, _ = genTx(rt, label+".tx", keys, maxData)
+	default:
+		m.Kind = "accounts"
+		if rapid.Bool().Draw(rt, label+".noparams") {
+			m.ParamsForm = "absent"
+		} else {
+			m.ParamsForm = "empty"
+		}
+	}
+	if m.Kind != "accounts" {
+		// the reply may name the member through a drawn tag (the real token depends on the position)
+		tag := fmt.Sprintf("tag-%d", rapid.IntRange(0, 1<<30).Draw(rt, label+".replytag"))
+		m.Reply, _ = genReply(rt, label+".reply", tag, m.Kind == "sendtx")
+	}
+	return m
+}
+
+func genExchange(rt *rapid.T, keys []proc.WalletKey, thorough bool) ExchangeCase {
 	c := ExchangeCase{Chain: rapid.SampledFrom(chainMenu).Draw(rt, "chain"), Salt: rapid.Uint32().Draw(rt, "salt")}
-	classes := map[string]bool{}
-	n := 1
+	lo, hi := 1, 1
 	switch k := rapid.IntRange(0, 19).Draw(rt, "shape"); {
 	case k < 5:
-		classes["shape:single"] = true
 	case k < 7:
 		c.Batch = true
-		classes["shape:batch-of-1"] = true
 	case k < 14:
-		c.Batch, n = true, rapid.IntRange(2, 5).Draw(rt, "n")
-		classes["shape:batch-2..5"] = true
+		c.Batch, lo, hi = true, 2, 5
 	case k < 18:
-		c.Batch, n = true, rapid.IntRange(6, 20).Draw(rt, "n")
-		classes["shape:batch-6..20"] = true
+		c.Batch, lo, hi = true, 6, 20
 	default:
-		c.Batch, n = true, rapid.IntRange(21, 64).Draw(rt, "n")
-		classes["shape:batch-21..64"] = true
+		c.Batch, lo, hi = true, 21, 64
 	}
 	maxData := 70000
-	if n > 20 {
+	if hi > 20 {
 		maxData = 2000
 	}
-	ranks := rapid.Permutation(seq(n)).Draw(rt, "ranks")
-	if rapid.IntRange(0, 3).Draw(rt, "fifo") == 0 {
-		ranks = seq(n)
-	}
-	usedNonceAddr := map[string]bool{}
-	var prevID string
-	for i := 0; i < n; i++ {
-		label := fmt.Sprintf("m%d", i)
-		m := Member{Rank: ranks[i]}
-		id, idClass := genID(rt, label+".id", i)
-		if i > 0 && rapid.IntRange(0, 11).Draw(rt, label+".dupid") == 0 {
-			id, idClass = prevID, "id:duplicate-in-batch"
+	fifo := rapid.IntRange(0, 3).Draw(rt, "fifo") == 0
+	c.Members = rapid.SliceOfN(rapid.Custom(func(rt *rapid.T) Member { return genMember(rt, keys, maxData, fifo) }), lo, hi).Draw(rt, "members")
+	if c.Batch && len(c.Members) > 1 {
+		// now and then two members share an id (alignment must then come from the position alone)
+		for i := 1; i < len(c.Members); i++ {
+			if rapid.IntRange(0, 11).Draw(rt, "dupid") == 0 {
+				c.Members[i].ID = c.Members[i-1].ID
+			}
 		}
-		prevID = id
-		m.ID = json.RawMessage(id)
-		classes[idClass] = true
-		tok := c.token(i)
-		switch k := rapid.IntRange(0, 9).Draw(rt, label+".kind"); {
-		case k < 4:
-			m.Kind = "pass"
-			m.Method = rapid.SampledFrom(methodMenu).Draw(rt, label+".method")
-			if rapid.IntRange(0, 4).Draw(rt, label+".ownmethod") == 0 {
-				m.Method = genString(rt, label+".methodname")
-			}
-			switch m.Method {
-			case "", "eth_sendTransaction", "eth_accounts", "personal_accounts": // handled by the proxy itself / not a method name
-				m.Method += "m"
-			}
-			switch rapid.IntRange(0, 7).Draw(rt, label+".pform") {
-			case 0:
-				m.ParamsForm = "absent"
-				classes["pass:params-absent"] = true
-			case 1:
-				m.ParamsForm = "empty"
-				classes["pass:params-empty"] = true
-			default:
-				np := rapid.IntRange(0, 4).Draw(rt, label+".np")
-				for p := 0; p < np; p++ {
-					m.Params = append(m.Params, json.RawMessage(genJSON(rt, fmt.Sprintf("%s.p%d", label, p), 3)))
-				}
-				m.TokenPos = rapid.IntRange(0, np).Draw(rt, label+".tokpos")
-				m.TokenDeep = rapid.IntRange(0, 3).Draw(rt, label+".tokdeep") == 0
-			}
-			classes["member:pass-through"] = true
-		case k < 9:
-			m.Kind = "sendtx"
-			var cl []string
-			m.Tx, cl = genTx(rt, label+".tx", keys, maxData)
-			for _, x := range cl {
-				classes[x] = true
-			}
-			classes["member:eth_sendTransaction"] = true
+	}
+	used := map[string]bool{}
+	for _, m := range c.Members {
+		if m.Kind == "sendtx" {
 			if cls, addr := classifyFrom(m.Tx.From, keys); cls == fromKnown && len(m.Tx.Nonce) == 0 {
-				usedNonceAddr[hex.EncodeToString(addr[:])] = true
+				used[hex.EncodeToString(addr[:])] = true
 			}
-		default:
-			m.Kind = "accounts"
-			if rapid.Bool().Draw(rt, label+".noparams") {
-				m.ParamsForm = "absent"
-			} else {
-				m.ParamsForm = "empty"
-			}
-			classes["member:eth_accounts"] = true
 		}
-		if m.Kind != "accounts" {
-			var rcl string
-			m.Reply, rcl = genReply(rt, label+".reply", tok, m.Kind == "sendtx")
-			classes[rcl] = true
-		}
-		c.Members = append(c.Members, m)
 	}
-	addrs := make([]string, 0, len(usedNonceAddr))
-	for a := range usedNonceAddr {
+	addrs := make([]string, 0, len(used))
+	for a := range used {
 		addrs = append(addrs, a)
 	}
 	sort.Strings(addrs)
 	for _, a := range addrs {
 		c.Nonces = append(c.Nonces, NonceScript{Addr: a, Reply: genNonceReply(rt, "nonce."+a[:6])})
 	}
-	out := make([]string, 0, len(classes))
-	for k := range classes {
+	return c
+}
+
+// classesOf labels a case for the evidence histogram (computed from the case, not from the draws).
+func classesOf(c ExchangeCase, keys []proc.WalletKey) []string {
+	cl := map[string]bool{}
+	switch n := len(c.Members); {
+	case !c.Batch:
+		cl["shape:single"] = true
+	case n == 1:
+		cl["shape:batch-of-1"] = true
+	case n <= 5:
+		cl["shape:batch-2..5"] = true
+	case n <= 20:
+		cl["shape:batch-6..20"] = true
+	default:
+		cl["shape:batch-21..64"] = true
+	}
+	ids := map[string]bool{}
+	for _, m := range c.Members {
+		id := string(m.ID)
+		if ids[id] {
+			cl["id:duplicate-in-batch"] = true
+		}
+		ids[id] = true
+		switch {
+		case strings.HasPrefix(id, `"`):
+			cl["id:string"] = true
+		case strings.ContainsAny(id, ".eE"):
+			cl["id:fraction-or-exponent"] = true
+		case strings.HasPrefix(id, "-"):
+			cl["id:negative"] = true
+		case len(id) > 15:
+			cl["id:big-int"] = true
+		default:
+			cl["id:small-int"] = true
+		}
+		switch m.Kind {
+		case "accounts":
+			cl["member:eth_accounts"] = true
+			continue
+		case "pass":
+			cl["member:pass-through"] = true
+			switch m.ParamsForm {
+			case "absent":
+				cl["pass:params-absent"] = true
+			case "empty":
+				cl["pass:params-empty"] = true
+			default:
+				cl["pass:params-array"] = true
+			}
+		case "sendtx":
+			cl["member:eth_sendTransaction"] = true
+			tx := m.Tx
+			cls, _ := classifyFrom(tx.From, keys)
+			cl["sendtx:from-"+map[fromClass]string{fromAbsent: "absent", fromMalformed: "malformed", fromUnknown: "unknown", fromKnown: "known"}[cls]] = true
+			if len(tx.Nonce) > 0 {
+				cl["sendtx:nonce-supplied"] = true
+			} else {
+				cl["sendtx:nonce-absent"] = true
+			}
+			switch {
+			case len(tx.MaxFee) > 0 || len(tx.MaxPriority) > 0:
+				cl["sendtx:eip1559-fees"] = true
+			case len(tx.GasPrice) > 0:
+				cl["sendtx:legacy-gasPrice"] = true
+			default:
+				cl["sendtx:no-fee-fields"] = true
+			}
+			if !tx.ToIsToken && tx.To == "" {
+				cl["sendtx:contract-creation"] = true
+			}
+			switch {
+			case tx.DataAbsent:
+				cl["sendtx:data-absent"] = true
+			case tx.DataLen >= 65535:
+				cl["sendtx:data>=64KiB-1"] = true
+			case tx.DataLen >= 1023:
+				cl["sendtx:data>=1KiB"] = true
+			}
+		}
+		switch m.Reply.Kind {
+		case "result":
+			cl["reply:result"] = true
+		case "rpcerror":
+			if m.Reply.Status == 0 {
+				cl["reply:rpcerror-http200"] = true
+			} else {
+				cl["reply:rpcerror-http4xx5xx"] = true
+			}
+		case "httperror":
+			cl["reply:httperror-"+m.Reply.BodyKind] = true
+		case "close":
+			cl["reply:connection-close"] = true
+		}
+	}
+	out := make([]string, 0, len(cl))
+	for k := range cl {
 		out = append(out, k)
 	}
 	sort.Strings(out)
-	return c, out
-}
-
-func seq(n int) []int {
-	out := make([]int, n)
-	for i := range out {
-		out[i] = i
-	}
 	return out
 }
 
@@ -1384,10 +1471,10 @@ func TestCheck(t *testing.T) {
 	kEx := evid.NewKind(rec, "exchange", judgeExchange)
 	rec.Corpus(t)
 	keys := proc.Keys(3)
-	rec.Rapid(t, "exchange", rec.N(300, 3000), func(rt *rapid.T) {
-		c, classes := genExchange(rt, keys, rec.Thorough())
+	rec.Rapid(t, "exchange", rec.N(600, 3000), func(rt *rapid.T) {
+		c := genExchange(rt, keys, rec.Thorough())
 		nt, more := nonTrivial(c, keys)
-		kEx.Check(rt, c, nt, append(classes, more...)...)
+		kEx.Check(rt, c, nt, append(classesOf(c, keys), more...)...)
 	})
 	if pool != nil {
 		rec.Extra("processes_started", pool.Stats.Started)
